@@ -66,7 +66,7 @@ def bounds(tier, seed):
             'sparse_grids': SPARSE_GRIDS_T, 'bc': BCS, 'variants': ['sym', 'herm', 'csym', 'unsym'],
             'nmodes': NMODES, 'sigma': SIGMAS, 'sparse_hermitian_flags': 'None, True on Hermitian pencils',
             'sparse_sortings': ['default', 'desc'],
-            'value_tables': 'level 1-2: table of the seed; level 3: all 10 (dense); level 4: 3 tables (sparse)'}
+            'value_tables': 'dense: table of the seed, then all 10; sparse: table of the seed, then seed+1, seed+2'}
 
 
 def _dense_cases(ns, tables):
@@ -98,20 +98,22 @@ def generate(tier, seed):
         yield from _dense_cases(DENSE_N, [t])
         yield from _sparse_cases(SPARSE_GRIDS_Q, BCS[:2], ['sym', 'herm', 'csym', 'unsym'], [t])
         return
+    # cheap levels first, so that the runner's time prediction for the next level is not dominated by the sparse cases
     yield {'__level__': 'dense design lattice (n in 2,3,5,8; table of the seed)'}
     yield from _dense_cases(DENSE_N, [t])
-    yield {'__level__': 'sparse design lattice (3 grids, 2 bc, 4 variants; table of the seed)'}
-    yield from _sparse_cases(SPARSE_GRIDS_Q, BCS[:2], ['sym', 'herm', 'csym', 'unsym'], [t])
     yield {'__level__': 'dense n in 1..8,12 x all 10 value tables'}
     base = {(c['n'], c['table']) for c in _dense_cases(DENSE_N, [t])}
     yield from [c for c in _dense_cases(list(range(1, 9)) + [12], list(range(re_.NTABLES)))
                 if (c['n'], c['table']) not in base]
-    yield {'__level__': 'sparse 9 grids x 3 bc x 4 variants x 3 value tables'}
-    tabs = [t, (t + 1) % re_.NTABLES, (t + 2) % re_.NTABLES]
+    yield {'__level__': 'sparse design lattice (3 grids, 2 bc, 4 variants; table of the seed)'}
+    yield from _sparse_cases(SPARSE_GRIDS_Q, BCS[:2], ['sym', 'herm', 'csym', 'unsym'], [t])
     seen = {(tuple(c['grid']), c['bc'], c['table']) for c in
             _sparse_cases(SPARSE_GRIDS_Q, BCS[:2], ['sym'], [t])}
-    yield from [c for c in _sparse_cases(SPARSE_GRIDS_T, BCS, ['sym', 'herm', 'csym', 'unsym'], tabs)
-                if (tuple(c['grid']), c['bc'], c['table']) not in seen]
+    for i in range(3):
+        ti = (t + i) % re_.NTABLES
+        yield {'__level__': f'sparse 9 grids x 3 bc x 4 variants, value table {ti}'}
+        yield from [c for c in _sparse_cases(SPARSE_GRIDS_T, BCS, ['sym', 'herm', 'csym', 'unsym'], [ti])
+                    if (tuple(c['grid']), c['bc'], c['table']) not in seen]
 
 
 # ------------------------------------------------------------------------------------------------------------------
